@@ -547,7 +547,12 @@ pub fn inv<const N: usize>(s: &St<N>, kind: InvKind, h: &[u64; K], distinct: boo
         if b < 0x80 {
             full += 1;
             let id = s.e[i] as usize;
-            if id >= K {
+            // ids index the hash table / the distinctness bitmap only in these modes; with
+            // Inv_safe and `id_is_slot` the id is the slot index and may exceed K
+            let id_used = kind == InvKind::Full || distinct;
+            if !id_used {
+                // nothing to relate
+            } else if id >= K {
                 ok = false;
             } else {
                 if kind == InvKind::Full {
